@@ -7,7 +7,7 @@ def main():
     c = Check("C05", a.tier, a.seed)
     if a.replay:
         r = json.load(open(a.replay)); c.seed, c.tier = r["seed"], r["tier"]
-    targets = ["Model/C05Run.vo", "Model/C05Run2.vo", "Model/C05Run3.vo"] + props("C05")[2]
+    targets = ["Model/C05Run.vo", "Model/C05Run2.vo", "Model/C05Run3.vo", "Model/BatchFri.vo"] + props("C05")[2]
     ok_mk, log = c.make(targets)
     thms = theorems_of(*props("C05")[0])
     assumptions = c.audit(props("C05")[1], thms) if ok_mk and thms else {}
@@ -50,17 +50,17 @@ def main():
         "obligations": max(len(thms), 1), "discharged": len([t for t in thms if assumptions.get(t, "").startswith("Closed")]) if thms else 0,
         "checker_cmd": "make -C coq Props/C05.vo Model/C05Run.vo && coqc Audit (Print Assumptions)",
         "trusted_base": ["Coq 8.16.1 kernel", "extraction (ExtrOcamlBasic, ExtrOcamlZBigInt), extract/main.ml",
-                         "harness/src/c05.rs", "Model/PoseidonSpec.v (proved equal to the implementation in C13)"],
+                         "harness/src/c05.rs, harness/src/c05b.rs (batched variant)", "Model/PoseidonSpec.v (proved equal to the implementation in C13)"],
         "theorems": {t: assumptions.get(t, "not checked") for t in thms},
         "evaluations": n, "distinct_nontrivial": len(dist), "distribution": dist, "samples": samples or ["none"],
         "inadmissible_shapes_skipped": skipped,
         "model_verifier_cases": total[0], "model_verifier_mismatches": total[1],
         "programs": total[0], "disagreements_checked": total[0],
-        "rule": "random oracle shapes (1-4 oracles, 1-5 polynomials each, blinding, degree 2^2..2^7, 1-3 opening points, all three reduction strategies, 1-8 queries): honest proof; wrong opening (prover rerun and fixed challenges); bad grinding; per-element edits under fixed challenges in six position classes; a function of twice the claimed degree",
+        "rule": "random oracle shapes (1-4 oracles, 1-5 polynomials each, blinding, degree 2^2..2^7, 1-3 opening points, all three reduction strategies, 1-8 queries): honest proof; wrong opening (prover rerun and fixed challenges); bad grinding; per-element edits under fixed challenges in six position classes; a function of twice the claimed degree; batched variant (harness/src/c05b.rs): three instances of strictly decreasing degree in one batch oracle, honest / wrong opening per degree class / per-element edits / dropped commit cap, each verdict replayed by Model/BatchFri.v; the honest proof over a blinded batch oracle",
     }
     level = "proof" if thms and coverage["discharged"] == len(thms) else "translation_validation"
     if not thms:
         coverage.pop("obligations"); coverage.pop("discharged")
     c.finish(level, coverage, [
         "proximity soundness (a far-from-low-degree function is rejected with high probability) is not a theorem here; it is probed by the adversarial cases",
-        "batched FRI over different degrees: see batch cases when present"])
+        "batched FRI: the model of verify_batch_fri_proof (Model/BatchFri.v) is tied by correspondence on verdict classes; Props/C05b.v proves its acceptance decomposition and the binding of the injection rule, not proximity soundness"])
